@@ -1474,6 +1474,200 @@ Section Flat.
       destruct (add_newline (page_result (body_subst ht (t_body t)))); reflexivity.
     - cbn. reflexivity.
   Qed.
+
+  (** ... with parameter references inside the arguments of the calls in the body. *)
+  Notation body_subst_args := FlatCall.body_subst_args.
+  Notation body_params_ok := (FlatCall.body_params_ok pfnames lib).
+
+  Fixpoint size3 (e : enc) : nat :=
+    match e with
+    | [] => 1
+    | A args :: r => S (fold_right (fun a n => (length a + n)%nat) 2%nat args) + size3 r
+    | T args :: r => S (fold_right (fun a n => (size a + n)%nat) 2%nat args) + size3 r
+    | _ :: r => S (size3 r)
+    end.
+
+  Lemma map_opt_args_flat f stk am (args : list enc) :
+    forallb flat_body args = true -> (fold_right (fun a n => (size a + n)%nat) 0%nat args < f)%nat ->
+    map_opt (fun x => option_map drop_last_nl (expand_args f stk am x)) args
+    = Some (map (fun a => drop_last_nl (code_subst am a)) args).
+  Proof.
+    induction args as [|a args IH]; intros Hp Hf; [reflexivity|].
+    cbn in Hp. apply andb_true_iff in Hp. destruct Hp as [Ha Hl]. cbn [fold_right] in Hf.
+    cbn [map_opt map]. rewrite (expand_args_flat a Ha) by lia. cbn [option_map].
+    rewrite IH by (assumption || lia). reflexivity.
+  Qed.
+
+  Lemma fold_size_base (l : list enc) b :
+    fold_right (fun a n => (size a + n)%nat) b l = (fold_right (fun a n => (size a + n)%nat) 0%nat l + b)%nat.
+  Proof. induction l as [|a l IH]; cbn [fold_right]; [reflexivity | rewrite IH; lia]. Qed.
+
+  Lemma params_marked outer b : body_params_ok outer b = true -> body_params_ok outer (marked_body b) = true.
+  Proof.
+    destruct b as [|i b]; [reflexivity|]. destruct i as [c| | | | |]; try (intros H; exact H).
+    cbn [marked_body]. destruct ((c =? 35) || (c =? 42) || (c =? 59) || (c =? 58)); intros H; exact H.
+  Qed.
+
+  Lemma flat_body_plain a : plain a = true -> flat_body a = true.
+  Proof.
+    induction a as [|i a IH]; intros H; [reflexivity|]. cbn in H. apply andb_true_iff in H. destruct H as [Hi Ha].
+    destruct i; try discriminate Hi. cbn. apply IH. exact Ha.
+  Qed.
+
+  Lemma expand_args_params outer e : body_params_ok outer e = true ->
+    forall fuel stk am, (size3 e < fuel)%nat -> expand_args fuel stk am e = Some (body_subst_args am e).
+  Proof.
+    induction e as [|i e IH]; intros Hb fuel stk am Hf.
+    - destruct fuel; [cbn in Hf; lia | reflexivity].
+    - destruct fuel as [|f]; [cbn in Hf; lia|].
+      destruct i as [c|args|args|args|c|]; try discriminate Hb.
+      + cbn [Expand.expand_args]. cbn in Hb, Hf. rewrite (IH Hb) by lia. reflexivity.
+      + destruct args as [|n args]; [discriminate Hb|].
+        cbn [FlatCall.body_params_ok] in Hb. repeat (apply andb_true_iff in Hb; destruct Hb as [Hb ?]).
+        cbn [size3] in Hf. rewrite (fold_size_base (n :: args) 2) in Hf.
+        cbn [Expand.expand_args]. rewrite (IH ltac:(assumption)) by lia.
+        assert (Hall : forallb flat_body (n :: args) = true) by (cbn [forallb]; rewrite (flat_body_plain n Hb); assumption).
+        rewrite (map_opt_args_flat f stk am (n :: args) Hall) by lia.
+        reflexivity.
+      + destruct args as [|k [|d [|x more]]]; try discriminate Hb.
+        * cbn in Hb. apply andb_true_iff in Hb. destruct Hb as [Hk Hb].
+          cbn [size3 fold_right] in Hf.
+          cbn [Expand.expand_args]. rewrite (IH Hb) by lia.
+          rewrite (expand_args_plain pfnames lib opts k Hk) by lia.
+          rewrite (expand_recurse_plain pfnames lib opts k Hk) by lia.
+          cbn [FlatCall.body_subst_args]. fold (param_key k).
+          destruct (am_get am (param_key k)); reflexivity.
+        * cbn in Hb. apply andb_true_iff in Hb. destruct Hb as [Hk Hb]. apply andb_true_iff in Hk. destruct Hk as [Hk Hd].
+          cbn [size3 fold_right] in Hf.
+          cbn [Expand.expand_args]. rewrite (IH Hb) by lia.
+          rewrite (expand_args_plain pfnames lib opts k Hk) by lia.
+          rewrite (expand_recurse_plain pfnames lib opts k Hk) by lia.
+          cbn [FlatCall.body_subst_args]. fold (param_key k).
+          destruct (am_get am (param_key k)); [reflexivity|].
+          rewrite (expand_args_plain pfnames lib opts d Hd) by lia. reflexivity.
+  Qed.
+
+  Lemma flat_ok_args name args : flat_ok pfnames lib name [] = true -> forallb plain args = true ->
+    flat_ok pfnames lib name args = true.
+  Proof. unfold flat_ok. cbn [forallb]. intros H Ha. rewrite Ha. rewrite andb_true_r in H. rewrite andb_true_r. exact H. Qed.
+
+  Lemma stripped_name_no_nl n : plain n = true -> strip_i (chars (codes n)) = chars (codes n) -> drop_last_nl n = n.
+  Proof.
+    intros Hn Hs. rewrite <- (plain_chars_codes n Hn). rewrite <- Hs.
+    unfold drop_last_nl. destruct (rev (strip_i (chars (codes n)))) as [|z zs] eqn:Er; [reflexivity|].
+    destruct (is_code 10 z) eqn:Ez; [|reflexivity]. exfalso.
+    assert (Hsp : sp_item z = true) by (destruct z; try discriminate Ez; cbn in *; apply N.eqb_eq in Ez; subst; reflexivity).
+    unfold strip_i, rstrip_i in Er. rewrite rev_involutive in Er.
+    assert (Hl : forall y w ws, lstrip_i y = w :: ws -> sp_item w = false).
+    { induction y as [|q y IHy]; intros w ws Hy; [discriminate|]. cbn [lstrip_i] in Hy. destruct (sp_item q) eqn:Eq; [apply (IHy _ _ Hy)|].
+      inversion Hy; subst. exact Eq. }
+    rewrite (Hl _ _ _ Er) in Hsp. discriminate Hsp.
+  Qed.
+
+  Lemma code_subst_plain ht a : values_plain ht = true -> flat_body a = true -> plain (code_subst ht a) = true.
+  Proof. intros Hh Ha. apply subst_plain; [apply plain_drop_last_nl | exact Hh | exact Ha]. Qed.
+
+  Lemma body_subst_args_items outer ht e : values_plain ht = true -> body_params_ok outer e = true ->
+    forallb flat_item (body_subst_args ht e) = true /\ fresh_items [FTitle; FTemplate outer] (body_subst_args ht e) = true.
+  Proof.
+    intros Hh. induction e as [|i e IH]; intros Hb; [split; reflexivity|].
+    destruct i as [c|args|args|args|c|]; try discriminate Hb.
+    - cbn in Hb. destruct (IH Hb) as [H1 H2]. split; [cbn; exact H1 | unfold fresh_items in *; cbn; exact H2].
+    - destruct args as [|n args]; [discriminate Hb|].
+      cbn [FlatCall.body_params_ok] in Hb. repeat (apply andb_true_iff in Hb; destruct Hb as [Hb ?]).
+      destruct (IH ltac:(assumption)) as [Hit Hfr].
+      match goal with X : flat_ok _ _ _ [] = true |- _ => pose proof X as Hname; destruct (flat_ok_premises _ _ X) as (Hs & _) end.
+      assert (Hn : code_subst ht n = n).
+      { unfold code_subst. clear - Hb. induction n as [|z n IHn]; [reflexivity|]. cbn in Hb. apply andb_true_iff in Hb. destruct Hb as [Hz Hn].
+        destruct z; try discriminate Hz. cbn [subst]. rewrite (IHn Hn). reflexivity. }
+      assert (Hdl : drop_last_nl (code_subst ht n) = n) by (rewrite Hn; apply stripped_name_no_nl; assumption).
+      assert (Hargs' : forallb plain (map (fun a => drop_last_nl (code_subst ht a)) args) = true).
+      { match goal with X : forallb flat_body args = true |- _ => revert X end. clear - Hh.
+        induction args as [|a args IHa]; intros Hf; [reflexivity|]. cbn in Hf. apply andb_true_iff in Hf. destruct Hf as [Ha Hr].
+        cbn [map forallb]. rewrite (plain_drop_last_nl _ (code_subst_plain ht a Hh Ha)), (IHa Hr). reflexivity. }
+      cbn [FlatCall.body_subst_args map]. rewrite Hdl. split.
+      + cbn [forallb FlatCall.flat_item]. rewrite Hit, andb_true_r, Hb. cbn [andb].
+        apply flat_ok_args; assumption.
+      + unfold fresh_items in *. cbn [forallb]. rewrite Hfr, andb_true_r.
+        cbn [existsb frame_eqb orb]. rewrite orb_false_r. assumption.
+    - destruct args as [|k [|d [|x more]]]; try discriminate Hb; cbn in Hb.
+      + apply andb_true_iff in Hb. destruct Hb as [Hk Hb]. destruct (IH Hb) as [H1 H2].
+        cbn [FlatCall.body_subst_args]. rewrite forallb_app, fresh_app, H1, H2, !andb_true_r.
+        destruct (am_get ht (param_key k)) as [v|] eqn:G.
+        * assert (Hv := plain_drop_last_nl v (am_get_plain ht _ v Hh G)). split; [apply plain_items | apply plain_fresh]; exact Hv.
+        * assert (Hu : plain (unexpanded_arg [chars (show_key (param_key k))]) = true)
+            by (unfold unexpanded_arg; cbn [join_i]; rewrite !plain_app, !plain_chars; reflexivity).
+          split; [apply plain_items | apply plain_fresh]; exact Hu.
+      + apply andb_true_iff in Hb. destruct Hb as [Hk Hb]. apply andb_true_iff in Hk. destruct Hk as [Hk Hd].
+        destruct (IH Hb) as [H1 H2].
+        cbn [FlatCall.body_subst_args]. rewrite forallb_app, fresh_app, H1, H2, !andb_true_r.
+        destruct (am_get ht (param_key k)) as [v|] eqn:G.
+        * assert (Hv := plain_drop_last_nl v (am_get_plain ht _ v Hh G)). split; [apply plain_items | apply plain_fresh]; exact Hv.
+        * split; [apply plain_items | apply plain_fresh]; exact Hd.
+  Qed.
+
+  Lemma add_newline_marked_params ht b :
+    add_newline (page_result (body_subst_args ht (marked_body b))) = add_newline (page_result (body_subst_args ht b)).
+  Proof.
+    destruct b as [|i b]; [reflexivity|]. destruct i as [c| | | | |]; try reflexivity.
+    cbn [marked_body]. destruct ((c =? 35) || (c =? 42) || (c =? 59) || (c =? 58)) eqn:E; [|reflexivity].
+    cbn [FlatCall.body_subst_args]. unfold FlatCall.page_result. cbn [flat_map app]. unfold add_newline. cbn [starts_block].
+    replace ((10 =? 42) || (10 =? 59) || (10 =? 58) || (10 =? 35) || _) with false by reflexivity.
+    assert (Hs : (c =? 42) || (c =? 59) || (c =? 58) || (c =? 35) = true).
+    { destruct (c =? 35), (c =? 42), (c =? 59), (c =? 58); cbn in *; congruence. }
+    rewrite Hs. reflexivity.
+  Qed.
+
+  Theorem body_params_call name args :
+    FlatCall.body_params_call_ok pfnames lib name args = true -> o_tfn opts = [] -> o_pfn opts = [] ->
+    exists F, forall fuel, (F <= fuel)%nat ->
+      expand_T fuel [FTitle] true (chars name :: args) = Some (FlatCall.body_params_result lib name args).
+  Proof.
+    intros Hok Htfn Hpfn.
+    unfold FlatCall.body_params_call_ok in Hok. repeat (apply andb_true_iff in Hok; destruct Hok as [Hok ?]).
+    assert (Hstrip : strip_i (chars name) = chars name).
+    { apply str_eqb_eq in Hok. rewrite <- (plain_chars_codes (strip_i (chars name))) by (apply plain_strip, plain_chars).
+      rewrite Hok. reflexivity. }
+    assert (Hcolon : existsb (N.eqb 58) name = false) by (match goal with X : negb _ = true |- _ => apply negb_true_iff in X; exact X end).
+    assert (Hpf : Expand.classify_pf pfnames (Expand.canon_pf pfnames name) = PfNone)
+      by (destruct (Expand.classify_pf pfnames (Expand.canon_pf pfnames name)); try discriminate; reflexivity).
+    assert (Hargs : forallb (nested_arg_ok name) args = true) by assumption.
+    assert (Hbody : forall t, find_tpl lib name = Some t -> body_params_ok name (t_body t) = true).
+    { intros t Ht. match goal with X : match find_tpl lib name with _ => _ end = true |- _ => rewrite Ht in X; exact X end. }
+    destruct (build_args_nested name args Hargs Htfn Hpfn) as [B HB].
+    set (ht := bind_nested args 1 []).
+    assert (Hht : values_plain ht = true) by (apply (values_plain_nested name); [exact Hargs | reflexivity]).
+    assert (Hsecond : exists G, forall fuel, (G <= fuel)%nat -> forall t, find_tpl lib name = Some t ->
+              expand_recurse fuel [FTitle; FTemplate name] true (body_subst_args ht (marked_body (t_body t)))
+              = Some (page_result (body_subst_args ht (marked_body (t_body t))))).
+    { destruct (find_tpl lib name) as [t|] eqn:Et.
+      - destruct (body_subst_args_items name ht (marked_body (t_body t)) Hht (params_marked _ _ (Hbody t eq_refl))) as [Hi Hfr].
+        destruct (expand_items_at _ Hi Htfn Hpfn) as [G HG].
+        exists G. intros fuel Hf t' Ht'. inversion Ht'; subst t'. apply HG; [cbn; lia | exact Hfr | exact Hf].
+      - exists 0%nat. intros fuel _ t' Ht'. discriminate Ht'. }
+    destruct Hsecond as [G HG].
+    set (bsize := match find_tpl lib name with Some t => size3 (marked_body (t_body t)) | None => 0%nat end).
+    exists (length name + B + bsize + G + 10)%nat.
+    intros fuel Hf. destruct fuel as [|f]; [lia|].
+    rewrite expand_T_S. replace (Nat.leb 100 (length [FTitle])) with false by reflexivity.
+    rewrite (expand_recurse_plain pfnames lib opts (chars name) (plain_chars name)) by (unfold chars; rewrite map_length; lia).
+    cbv beta iota zeta. rewrite Hstrip, codes_chars.
+    rewrite (no_colon_index name 0 Hcolon).
+    rewrite Hpf. rewrite Hcolon. cbn [negb andb].
+    replace (detect_loop ([FTitle] ++ [FTemplate name])) with false by reflexivity.
+    change ([FTitle] ++ [FTemplate name]) with [FTitle; FTemplate name].
+    rewrite (HB f 1 []) by lia. fold ht.
+    rewrite Htfn, Hpfn. cbn [hook_ret find].
+    unfold FlatCall.body_params_result. fold ht.
+    destruct (find_tpl lib name) as [t|] eqn:Et.
+    - fold (marked_body (t_body t)).
+      rewrite (expand_args_params name (marked_body (t_body t)) (params_marked _ _ (Hbody t eq_refl))) by (unfold bsize in Hf; lia).
+      cbn [orb].
+      rewrite (HG f ltac:(lia) t eq_refl).
+      rewrite add_newline_marked_params.
+      destruct (add_newline (page_result (body_subst_args ht (t_body t)))); reflexivity.
+    - cbn. reflexivity.
+  Qed.
 End Flat.
 
 (** The deviation the code is known to have (c04:trailing-newline-dropped) is exactly the gap between the two
